@@ -828,7 +828,20 @@ func (c *Ctx) roundingSources() {
 			if sc := call.Common().StaticCallee(); sc != nil {
 				switch calleeName(sc) {
 				case "math.Round", "math.Floor", "math.Ceil", "math.Trunc", "math.RoundToEven":
-					sites = append(sites, c.fname(f)+":"+sc.Name())
+					// what is rounded, not where: an advance width, or a product (the numerator
+					// search of the fraction encoder)
+					what := "other value " + c.valShape(call.Common().Args[0]) + " in " + c.fname(f)
+					switch a := origin(call.Common().Args[0]).(type) {
+					case *ssa.UnOp:
+						if _, fld, ok := fieldAddrOf(a.X); ok && (fld.Name() == "WidthX" || fld.Name() == "WidthY") {
+							what = "advance width " + fld.Name()
+						}
+					case *ssa.BinOp:
+						if a.Op == token.MUL {
+							what = "numerator = value × denominator"
+						}
+					}
+					sites = append(sites, sc.Name()+" of "+what)
 				}
 				walk(sc)
 			}
@@ -841,7 +854,7 @@ func (c *Ctx) roundingSources() {
 		walk(r)
 	}
 	sort.Strings(sites)
-	want := []string{"(*type1.Font).encodeCharstrings:Round", "(*type1.Font).encodeCharstrings:Round", "type1.appendNumber:Round"}
+	want := []string{"Round of advance width WidthX", "Round of advance width WidthY", "Round of numerator = value × denominator"}
 	c.check(fmt.Sprint(sites) == fmt.Sprint(want), "CL-ROUNDING", "type1 writer", "the only roundings on the write path: advance widths (x, y) to whole units, and the numerator search of appendNumber", token.NoPos, fmt.Sprint(sites),
 		fmt.Sprintf("rounding calls reachable from the writers are %v, documented are %v: an undocumented quantisation changes a font that was read", sites, want))
 }
